@@ -234,6 +234,11 @@ def can_signal_blocks(draw, s: M.Schema, struct_name: str, cfg: CanCfg) -> List[
                 blocks.setdefault(fname, []).append(("endianess", "big"))
             elif draw(st.integers(0, 9)) == 0:
                 blocks.setdefault(fname, []).append(("endianess", "little"))
+    # a block that names a non-scalar field (an array, an array of structs, a nested struct) with option values that
+    # change nothing: the elements / members must still be laid out exactly as without it
+    for f in st_.fields:
+        if f.name not in top_scalar and draw(st.integers(0, 3)) == 0:
+            blocks.setdefault(f.name, []).append(draw(st.sampled_from([("endianess", "little"), ("scale", 1), ("note", "x")])))
     if cfg.mux:
         muxers = [lf for lf in top_scalar.values() if isinstance(lf.type, M.U) and lf.field not in blocks]
         if muxers and len(top_scalar) >= 2 and draw(st.integers(0, 2)) == 0:
